@@ -1,4 +1,5 @@
 import CoclsModel.MutexProofs
+import CoclsModel.MutexPtrProofs
 /-!
 # C08 — coroutine mutex: FIFO hand-off, no lost request (property theorems)
 
@@ -378,3 +379,204 @@ example : (trun cfgEx 100 (init cfgEx) schedB).queue = sB.queue ∧ (trun cfgEx 
     (∀ a, a < 3 → (trun cfgEx 100 (init cfgEx) schedZ).pc a = Pc.done) := by decide
 
 end Cocls.Mutex
+
+/-!
+# C08 at pointer level (`MutexPtr.lean`, `MutexPtrProofs.lean`): the FIFO is the list
+
+The theorems above are about the list-level model, where `_requests` is a `List Elem` and `_queue` a `List Nat`.  The code
+has raw `awaiter::_next` links.  `MutexPtr.lean` models them (`requests`/`queue : Ptr`, `next : Node → Ptr`; `build_queue` =
+exchange + an explicit loop over the links that runs in the caller's next segment; `unlock` pops by pointer), the driver
+`Drivers/C08P.lean` runs that model against the real header step for step *including a digest of the real pointer state*
+(suite `ptr-level` of `checks/c08.py`), and the theorems below prove that it refines the list-level model — so all the
+theorems above hold for what the pointers denote.  Quantifier: every configuration `c`, every loop fuel `wf ≥ c.n`, every
+list of agent activities permitted by `canRun` (resp. every schedule of enabled OS threads, `c.WFT`).
+-/
+namespace Cocls.MutexPtr
+open Cocls.Mutex (Elem Seen Flavour Rel Round AKind Cfg Pc TMain Ev Outcome upd nodesL nodesOf seenOf Inv Listed Owner
+  Waiting canRun cfgEx runP runA runB runN runZ sP sA sB sN sZ)
+variable {c : Cfg}
+
+/-- **`build_queue`'s walk over the `_next` links is list reversal.**  Whatever the state: if following `_next` from the
+    detached top `req` visits exactly `l` and reaches the stop marker, `_queue` is a null-terminated chain visiting `q`,
+    the two are disjoint and the nodes of `l` are alive, then the loop (any fuel `≥ l.length`) ends with `_queue` visiting
+    `l.reverse ++ q`, writes no `_next` outside `l`, makes exactly the accesses `read n._next; write n._next` for `n ∈ l` in
+    chain order, and touches nothing that is not alive. -/
+theorem c08_build_queue_is_reversal (a : Nat) (stop : Ptr) (l : List Node) (fuel : Nat) (s : State) (req : Ptr) (q : List Node)
+    (hl : ChainIs s.next req l stop) (hq : ChainIs s.next s.queue q Seen.null) (hd : ∀ n ∈ l, n ∉ q)
+    (hlive : ∀ n ∈ l, s.live n = true) (hf : l.length ≤ fuel) :
+    ChainIs (walk a stop fuel s req).next (walk a stop fuel s req).queue (l.reverse ++ q) Seen.null ∧
+    (∀ m, m ∉ l → (walk a stop fuel s req).next m = s.next m) ∧
+    (walk a stop fuel s req).acc = s.acc ++ walkAcc a l ∧ (walk a stop fuel s req).viol = s.viol := by
+  obtain ⟨h1, h2, h3, h4, _⟩ := walk_chain a stop l fuel s req q hl hq hd hlive hf
+  exact ⟨h1, h2, h4, h3⟩
+
+/-- the pointer-level run of scenario `runA` up to the owner's exchange (`relBuild`), and one activity later -/
+def pA : State := arun cfgEx 3 (init cfgEx) runA
+def pA' : State := arun cfgEx 3 (init cfgEx) (runA ++ [(0, 0)])
+
+/- after the exchange the stack `2 → 1 → door` is detached (reachable only from the owner's local variable `pend 0`), the
+   loop has not run yet; the owner's next activity runs it: `_queue = 1 → 2 → null`, then pops 1 -/
+example : pA.requests = Seen.door ∧ pA.queue = Seen.null ∧ pA.pend 0 = some (Seen.node 2 0, Seen.door) ∧
+    pA.next (2, 0) = Seen.node 1 0 ∧ pA.next (1, 0) = Seen.door := by decide
+example : (flush 3 pA 0).queue = Seen.node 1 0 ∧ (flush 3 pA 0).next (1, 0) = Seen.node 2 0 ∧
+    (flush 3 pA 0).next (2, 0) = Seen.null ∧ (flush 3 pA 0).acc = pA.acc ++ walkAcc 0 [(2, 0), (1, 0)] := by decide
+example : pA'.queue = Seen.node 2 0 ∧ pA'.next (1, 0) = Seen.null ∧ pA'.next (2, 0) = Seen.null ∧ pA'.pend 0 = none ∧
+    pA'.pc 1 = Pc.crit := by decide
+
+/-- **The pointer-level model refines the list-level model (agent level).**  For every configuration, every fuel
+    `wf ≥ c.n` and every activity list `l` permitted by `canRun`: the pointer-level state after `l` is related by `Repr` to
+    the list-level state after `l` — same control part, `_requests` represents its stack, `_queue` (after the owner's
+    pending loop) represents its queue, every linked node alive —, the abstraction function maps one to the other, and the
+    next activity of any agent emits the same events (what the CAS/exchange observed and stored, which flag is stored: the
+    node handed over) with the same outcome at both levels. -/
+theorem c08_ptr_refines_list (wf : Nat) (hwf : c.n ≤ wf) (l : List (Nat × Nat)) (hg : Mutex.Guarded c (Mutex.init c) l) :
+    Repr c (arun c wf (init c) l) (Mutex.arun c (Mutex.init c) l) ∧
+    abs c (arun c wf (init c) l) = Mutex.arun c (Mutex.init c) l ∧
+    ∀ t a, (agentStep c wf (arun c wf (init c) l) t a).2 = (Mutex.agentStep c (Mutex.arun c (Mutex.init c) l) t a).2 := by
+  have hR := repr_run wf hwf l hg
+  have hs := Mutex.reachable_of_run c l hg
+  refine ⟨hR, abs_of_repr hs hR, fun t a => ?_⟩
+  exact (agentStep_sim wf hR (Mutex.inv_reachable hs) (by have := queue_length_le hs; omega) t a).1
+
+/-- **Step form: `abs (pstep ps a) = lstep (abs ps) a`.**  From any pointer state related to a reachable list-level state,
+    every permitted activity commutes with the abstraction function and emits the same events and outcome. -/
+theorem c08_abs_commutes (wf : Nat) (hwf : c.n ≤ wf) {ps : State} {ls : Mutex.State} (hs : Mutex.Reachable c ls)
+    (hR : Repr c ps ls) (t a : Nat) (hcan : canRun ls a = true) :
+    abs c (agentStep c wf ps t a).1 = (Mutex.agentStep c (abs c ps) t a).1 ∧
+    (agentStep c wf ps t a).2 = (Mutex.agentStep c (abs c ps) t a).2 :=
+  abs_agentStep wf hwf hs hR hcan
+
+example : abs cfgEx pA = sA ∧ (abs cfgEx pA).queue = [1, 2] ∧ (abs cfgEx pA).req = [Elem.door] := by
+  have h : abs cfgEx pA = sA := (c08_ptr_refines_list (c := cfgEx) 3 (by decide) runA (by decide)).2.1
+  exact ⟨h, by rw [h]; decide⟩
+/- the same by evaluation of the abstraction function (a pending loop is completed virtually) -/
+example : (abs cfgEx pA).queue = [1, 2] ∧ (abs cfgEx pA').queue = [2] ∧
+    (abs cfgEx (arun cfgEx 3 (init cfgEx) runP)).req = [Elem.node 2 0, Elem.node 1 0, Elem.door] := by decide
+
+/-- **… and for every schedule of OS threads** (the executor glue; what the harness runs): the pointer-level machine and the
+    list-level machine under the same schedule of enabled threads stay related, and the next step of any enabled thread
+    prints the same operation lines. -/
+theorem c08_ptr_refines_list_threads (hwf : c.WFT) (wf : Nat) (hn : c.n ≤ wf) (fuel : Nat) (ts : List Nat)
+    (hg : Mutex.TGuarded c fuel (Mutex.init c) ts) :
+    Repr c (trun c wf fuel (init c) ts) (Mutex.trun c fuel (Mutex.init c) ts) ∧
+    abs c (trun c wf fuel (init c) ts) = Mutex.trun c fuel (Mutex.init c) ts ∧
+    ∀ t, Mutex.enabled (Mutex.trun c fuel (Mutex.init c) ts) t = true →
+      (threadStep c wf fuel (trun c wf fuel (init c) ts) t).2 =
+        (Mutex.threadStep c fuel (Mutex.trun c fuel (Mutex.init c) ts) t).2 := by
+  obtain ⟨hR, hev⟩ := trun_init_sim hwf wf hn fuel ts hg
+  exact ⟨hR, abs_of_repr (Mutex.trun_init_reachable hwf fuel ts hg) hR, hev⟩
+
+example : (trun cfgEx 3 100 (init cfgEx) Mutex.schedB).queue = Seen.node 2 0 ∧
+    abs cfgEx (trun cfgEx 3 100 (init cfgEx) Mutex.schedB) = Mutex.trun cfgEx 100 (Mutex.init cfgEx) Mutex.schedB :=
+  ⟨by decide, (c08_ptr_refines_list_threads Mutex.cfgEx_wft 3 (by decide) 100 Mutex.schedB (by decide)).2.1⟩
+
+
+/-- **The FIFO is the list: `_queue` then the reversed `_requests` chain is the arrival order.**  In every pointer state
+    reached by a permitted activity list: whatever lists the pointer fields denote (`Links`: `det` = the chain a pending
+    `build_queue` loop still has to move, `q0` = the chain of `_queue`, `stk` = the chain of `_requests`; they are determined
+    by the pointers, `links_unique`), the sequence `det.reverse ++ q0 ++ stk.reverse` of request nodes is strictly increasing
+    in the arrival stamp of the owners (the stamp is taken by the successful publishing CAS), no node occurs twice, and all of
+    them are alive.  `det.reverse ++ q0` is the list-level queue and `stk` the list-level stack. -/
+theorem c08_queue_is_arrival_order_ptr (wf : Nat) (hwf : c.n ≤ wf) (l : List (Nat × Nat))
+    (hg : Mutex.Guarded c (Mutex.init c) l) (det q0 stk : List Node) (bottom : Ptr)
+    (hk : Links (arun c wf (init c) l) det q0 stk bottom) :
+    ((det.reverse ++ q0 ++ stk.reverse).map (·.1)).Pairwise
+      (fun x y => (arun c wf (init c) l).stamp x < (arun c wf (init c) l).stamp y) ∧
+    (det ++ q0 ++ stk).Nodup ∧ (∀ n ∈ det ++ q0 ++ stk, (arun c wf (init c) l).live n = true) ∧
+    (Mutex.arun c (Mutex.init c) l).queue = (det.reverse ++ q0).map (·.1) ∧
+    nodesOf (Mutex.arun c (Mutex.init c) l).req = stk.map (·.1) := by
+  have hR := repr_run wf hwf l hg
+  have hI := Mutex.inv_reachable (Mutex.reachable_of_run c l hg)
+  generalize arun c wf (init c) l = ps at *
+  generalize Mutex.arun c (Mutex.init c) l = ls at *
+  obtain ⟨det', q0', b', hk', hq, hlv⟩ := links_of_repr hR
+  obtain ⟨e1, e2, e3, _⟩ := links_unique hk hk'
+  subst e1 e2 e3
+  have hst : ps.stamp = ls.stamp := by rw [hR.1]; rfl
+  have hS := hI.stampQ
+  have hnd := inv_nodup hI
+  rw [hq, nodesOf_eq_map] at hS hnd
+  refine ⟨?_, ?_, fun n hn => (hlv n hn).1, hq, nodesOf_eq_map _⟩
+  · rw [hst]
+    simpa [List.map_append, List.map_reverse] using hS
+  · have : ((det ++ q0 ++ nodesN ls.req).map (·.1)).Nodup := by
+      have h2 : (List.map (fun x : Node => x.1) (det.reverse ++ q0) ++ List.map (fun x : Node => x.1) (nodesN ls.req)).Perm
+          ((det ++ q0 ++ nodesN ls.req).map (·.1)) := by
+        simp only [List.map_append, List.map_reverse]
+        exact List.Perm.append_right _ (List.Perm.append_right _ (List.reverse_perm _))
+      exact h2.nodup_iff.1 hnd
+    exact List.Pairwise.of_map (fun x : Node => x.1) (fun a b h e => h (by rw [e])) this
+
+/- scenario `runA` after the owner's exchange: the pointers denote `det = [n2.0, n1.0]`, `q0 = []`, `stk = []` (readout by
+   the executable chain followers), list-level queue `[1, 2]`; 1 arrived before 2 -/
+example : ∃ det q0 b, Links pA det q0 (nodesN sA.req) b ∧ sA.queue = (det.reverse ++ q0).map (·.1) := by
+  obtain ⟨det, q0, b, h1, h2, _⟩ := links_of_repr (repr_run (c := cfgEx) 3 (by decide) runA (by decide))
+  exact ⟨det, q0, b, h1, h2⟩
+example : followTo pA.next Seen.door 3 (Seen.node 2 0) = [(2, 0), (1, 0)] ∧ (follow pA.next 3 pA.queue).1 = [] ∧
+    sA.queue = [1, 2] ∧ pA.stamp 1 < pA.stamp 2 ∧ pA.live (1, 0) = true ∧ pA.live (2, 0) = true := by decide
+
+/-- **No lost request (pointer level).**  Whatever lists the pointers denote: every agent that waits for the lock (parked
+    coroutine / blocking waiter whose flag is not set) — and the found-null acquirer before its `build_queue` — owns exactly
+    one linked node (in the stack, in the chain a pending loop has to move, or in `_queue`); nobody else owns one. -/
+theorem c08_no_lost_request_ptr (wf : Nat) (hwf : c.n ≤ wf) (l : List (Nat × Nat))
+    (hg : Mutex.Guarded c (Mutex.init c) l) (det q0 stk : List Node) (bottom : Ptr)
+    (hk : Links (arun c wf (init c) l) det q0 stk bottom) (a : Nat) :
+    ((det ++ q0 ++ stk).map (·.1)).count a = (if Listed (Mutex.arun c (Mutex.init c) l) a then 1 else 0) ∧
+    (Waiting (Mutex.arun c (Mutex.init c) l) a → ∃ n ∈ det ++ q0 ++ stk, n.1 = a) := by
+  have hR := repr_run wf hwf l hg
+  have hI := Mutex.inv_reachable (Mutex.reachable_of_run c l hg)
+  generalize arun c wf (init c) l = ps at *
+  generalize Mutex.arun c (Mutex.init c) l = ls at *
+  obtain ⟨det', q0', b', hk', hq, _⟩ := links_of_repr hR
+  obtain ⟨e1, e2, e3, _⟩ := links_unique hk hk'
+  subst e1 e2 e3
+  have hc := hI.cnt a
+  rw [hq, nodesOf_eq_map] at hc
+  have hcount : ((det ++ q0 ++ nodesN ls.req).map (·.1)).count a = (if Listed ls a then 1 else 0) := by
+    rw [← hc]
+    simp only [List.map_append, List.count_append, List.map_reverse, List.count_reverse]
+  refine ⟨hcount, fun hw => ?_⟩
+  rw [if_pos (show Listed ls a from Or.inl hw)] at hcount
+  have : a ∈ (det ++ q0 ++ nodesN ls.req).map (·.1) := List.count_pos_iff.1 (by omega)
+  obtain ⟨n, hn, e⟩ := List.mem_map.1 this
+  exact ⟨n, hn, e⟩
+
+example : Waiting sA 1 ∧ Waiting sA 2 ∧ ¬ Listed sA 0 ∧
+    (followTo pA.next Seen.door 3 (Seen.node 2 0)).map (·.1) = [2, 1] := by decide
+
+/-- **FIFO hand-over at pointer level.**  Whenever an activity of `x` hands the lock over (`grantee c ls x = some b`), the
+    pointer-level activity pops the node of `b` — the pending request with the smallest arrival stamp — off `_queue`: the new
+    pointer state represents the list-level state whose pending list lost exactly its head, `b` is the owner. -/
+theorem c08_fifo_ptr (wf : Nat) (hwf : c.n ≤ wf) {ps : State} {ls : Mutex.State} (hs : Mutex.Reachable c ls)
+    (hR : Repr c ps ls) (t x b : Nat) (hx : canRun ls x = true) (hg : Mutex.grantee c ls x = some b) :
+    Repr c (agentStep c wf ps t x).1 (Mutex.agentStep c ls t x).1 ∧
+    (Mutex.pending ls).head? = some b ∧ (∀ y ∈ Mutex.pending ls, y ≠ b → ls.stamp b < ls.stamp y) ∧
+    Mutex.pending (Mutex.agentStep c ls t x).1 = (Mutex.pending ls).tail ∧
+    Owner (abs c (agentStep c wf ps t x).1) b := by
+  have h := Mutex.c08_fifo hs t x b hx hg
+  have hsim := agentStep_sim wf hR (Mutex.inv_reachable hs) (by have := queue_length_le hs; omega) t x
+  refine ⟨hsim.2, h.1, h.2.1, h.2.2.2.2.2, ?_⟩
+  rw [abs_of_repr (Mutex.reachable_step hs t hx) hsim.2]
+  exact h.2.2.1
+
+/- `pA → pA'`: the owner 0 (at `relHand`) runs the loop and pops the head: node of 1 -/
+example : Mutex.grantee cfgEx sA 0 = some 1 ∧ (flush 3 pA 0).queue = Seen.node 1 0 ∧ pA'.queue = Seen.node 2 0 ∧
+    (abs cfgEx pA').queue = [2] ∧ Owner (abs cfgEx pA') 1 := by decide
+
+/-- **The assertions of mutex.h hold**: `assert(_queue == nullptr)` in `build_queue` (evaluated after the exchange, before
+    the loop) and `assert(_requests != nullptr)` at the entry of `unlock` never fail, and the doorman's `_next` is never
+    written — along every permitted activity list, and along every schedule of enabled OS threads. -/
+theorem c08_assertions_hold_ptr (wf : Nat) (hwf : c.n ≤ wf) :
+    (∀ l, Mutex.Guarded c (Mutex.init c) l → (arun c wf (init c) l).asrt = false ∧ (arun c wf (init c) l).doorNext = Seen.null) ∧
+    (c.WFT → ∀ fuel ts, Mutex.TGuarded c fuel (Mutex.init c) ts →
+      (trun c wf fuel (init c) ts).asrt = false ∧ (trun c wf fuel (init c) ts).doorNext = Seen.null) := by
+  refine ⟨fun l hg => ?_, fun hw fuel ts hg => ?_⟩
+  · have h := (repr_run wf hwf l hg).2
+    exact ⟨h.noAsrt, h.doorN⟩
+  · have h := (trun_init_sim hw wf hwf fuel ts hg).1.2
+    exact ⟨h.noAsrt, h.doorN⟩
+
+example : pA'.asrt = false ∧ (arun cfgEx 3 (init cfgEx) runZ).asrt = false ∧
+    (arun cfgEx 3 (init cfgEx) runZ).requests = Seen.null ∧ (arun cfgEx 3 (init cfgEx) runZ).queue = Seen.null := by decide
+
+end Cocls.MutexPtr
